@@ -41,44 +41,80 @@ def _err_reader(proc, errsink):
 
 
 def run_workers(prop, tier, base_seed, n_runs, workers, budget_s, hashseed=0,
-                indices=None, no_shrink=False, extra_env=None):
-  """Returns (records, errors, exit_codes)."""
+                indices=None, no_shrink=False, extra_env=None, max_per_proc=2000):
+  """Returns (records, errors, exit_codes).
+
+  Every shard (w, w+W, w+2W, ...) is served by a chain of worker processes: a process handles at most
+  `max_per_proc` runs and is then replaced (bounded growth of jit caches), and a process killed by a signal (an XLA
+  compiler segfault was seen after thousands of compilations) is replaced too, the run it was executing being skipped
+  and reported.  More than three such crashes in one shard are a harness error.
+  """
   deadline = time.time() + budget_s
-  procs = []
-  recs = [[] for _ in range(workers)]
-  errs = [[] for _ in range(workers)]
-  threads = []
-  for w in range(workers):
-    a = ['--prop', prop, '--tier', tier, '--base-seed', str(base_seed),
-         '--shard', f'{w}/{workers}', '--runs', str(n_runs),
-         '--deadline', str(deadline)]
-    if indices is not None:
-      mine = [str(i) for k, i in enumerate(indices) if k % workers == w]
-      if not mine:
-        continue
-      a += ['--indices', ','.join(mine)]
-    if no_shrink:
-      a.append('--no-shrink')
-    p = _spawn(a, hashseed, extra_env)
-    procs.append(p)
-    for target, args in ((_reader, (p, recs[w], errs[w])),
-                         (_err_reader, (p, errs[w]))):
-      t = threading.Thread(target=target, args=args, daemon=True)
-      t.start()
-      threads.append(t)
-  codes = []
   hard = deadline + 900   # workers stop themselves at the deadline; this is the hang guard
-  for p in procs:
-    try:
-      codes.append(p.wait(timeout=max(1.0, hard - time.time())))
-    except subprocess.TimeoutExpired:
-      p.kill()
-      codes.append(-9)
+  all_recs, all_errs, codes = [], [], []
+  lock = threading.Lock()
+
+  def shard(w):
+    if indices is not None:
+      todo = [i for k, i in enumerate(indices) if k % workers == w]
+    else:
+      todo = list(range(w, n_runs, workers))
+    crashes = 0
+    code = 0
+    while todo and time.time() < deadline:
+      chunk = todo[:max_per_proc]
+      a = ['--prop', prop, '--tier', tier, '--base-seed', str(base_seed), '--shard', f'{w}/{workers}',
+           '--runs', str(n_runs), '--deadline', str(deadline)]
+      if len(chunk) > 1 and all(chunk[k + 1] - chunk[k] == chunk[1] - chunk[0] for k in range(len(chunk) - 1)):
+        a += ['--range', f'{chunk[0]}:{chunk[-1] + 1}:{chunk[1] - chunk[0]}']
+      else:
+        a += ['--indices', ','.join(str(i) for i in chunk)]
+      if no_shrink:
+        a.append('--no-shrink')
+      p = _spawn(a, hashseed, extra_env)
+      recs, errs = [], []
+      t1 = threading.Thread(target=_reader, args=(p, recs, errs), daemon=True)
+      t2 = threading.Thread(target=_err_reader, args=(p, errs), daemon=True)
+      t1.start()
+      t2.start()
+      try:
+        code = p.wait(timeout=max(1.0, hard - time.time()))
+      except subprocess.TimeoutExpired:
+        p.kill()
+        code = -9
+      t1.join(timeout=5)
+      t2.join(timeout=5)
+      done = {r['index'] for r in recs if r['type'] == 'run'}
+      started = [r['index'] for r in recs if r['type'] == 'start']
+      with lock:
+        all_recs.extend(r for r in recs if r['type'] != 'start')
+        all_errs.extend(errs)
+      if code == 0:
+        if any(r['type'] in ('deadline', 'harness_error') for r in recs):
+          break
+        todo = [i for i in todo if i not in done and i not in chunk] + [i for i in chunk if i not in done and i not in started]
+        todo.sort()
+        if any(r['type'] == 'run' and r['violations'] for r in recs) and os.environ.get('VSIM_STOP_ON_VIOLATION'):
+          break
+        continue
+      if code < 0 and code != -9 and crashes < 3:
+        crashes += 1
+        bad = next((i for i in reversed(started) if i not in done), None)
+        with lock:
+          all_recs.append({'type': 'worker_crash', 'signal': -code, 'index': bad, 'shard': w})
+        todo = [i for i in todo if i not in done and i != bad]
+        code = 0
+        continue
+      break
+    with lock:
+      codes.append(code)
+
+  threads = [threading.Thread(target=shard, args=(w,), daemon=True) for w in range(workers)]
   for t in threads:
-    t.join(timeout=5)
-  flat = [r for rs in recs for r in rs]
-  flat_err = [e for es in errs for e in es]
-  return flat, flat_err, codes
+    t.start()
+  for t in threads:
+    t.join()
+  return all_recs, all_errs, codes
 
 
 def confirm_replay(prop, path, extra_env=None):
@@ -142,7 +178,8 @@ def run_check(prop, tier, base_seed, workers=16, budget_s=None, replay=None,
   recs, errs, codes = ([], [], [])
   if not selftest_only:
     recs, errs, codes = run_workers(prop, tier, base_seed, n_runs, workers,
-                                    budget_s, hashseed=0, extra_env=extra_env)
+                                    budget_s, hashseed=0, extra_env=extra_env,
+                                    max_per_proc=plan.get('max_runs_per_process', 2000))
   harness = [r for r in recs if r['type'] == 'harness_error']
   if harness or any(c != 0 for c in codes):
     for h in harness[:3]:
@@ -156,6 +193,10 @@ def run_check(prop, tier, base_seed, workers=16, budget_s=None, replay=None,
   runs = sorted((r for r in recs if r['type'] == 'run'),
                 key=lambda r: r['index'])
   deadline_hit = any(r['type'] == 'deadline' for r in recs)
+  crashes = [r for r in recs if r['type'] == 'worker_crash']
+  for c in crashes:
+    say(f"[{prop}] note: a worker process was killed by signal {c['signal']} while executing run index {c['index']}; "
+        f"the worker was replaced and that run skipped")
 
   # ---- determinism self-test: same seeds, other processes, other hash seed
   n_self = plan.get('selftest_runs', 8) if not selftest_only else plan.get(
@@ -286,6 +327,7 @@ def run_check(prop, tier, base_seed, workers=16, budget_s=None, replay=None,
                                      'mismatches': len(mism),
                                      'python_hash_seeds': [0, 7]},
             'workers': workers,
+            'worker_crashes_survived': [{'signal': c['signal'], 'skipped_run_index': c['index']} for c in crashes],
             'violation_signatures': sorted({v['signature'] for v in violations}),
         },
         'assumptions': list(getattr(mod, 'ASSUMPTIONS', [])),
